@@ -923,3 +923,18 @@ def seqassoc_snippet(rng):
     L += ['  contains', '    subroutine local1(z, r)', '      real(kind=jprb), intent(in) :: z(2)', '      real(kind=jprb), intent(out) :: r',
           '      r = z(1) + z(2)', '    end subroutine local1', '  end subroutine kernel', 'end module kmod']
     return '\n'.join(L) + '\n'
+
+
+def deep_snippet(rng):
+    """Deeply nested subscript / intrinsic expressions in mixed case (depth 3..9)."""
+    def sp(w):
+        return rng.choice([w.lower(), w.upper(), w.capitalize()])
+    lines = []
+    for v in ('k', 't'):
+        e = sp('n')
+        for _ in range(rng.randint(3, 9)):
+            e = rng.choice([f"{sp('ia')}({sp('mod')}({sp('abs')}({e}), 5))", f"{sp('ia')}({sp('min')}({sp('max')}({e} + {sp('m')}, 0), 4))"])
+        lines.append(f'    {sp(v)} = {e}')
+    return ('module kmod\n  implicit none\ncontains\n  subroutine kernel(n, m, ia, k)\n    integer, intent(in) :: n, m\n'
+            '    integer, intent(inout) :: ia(0:4)\n    integer, intent(out) :: k\n    integer :: t\n' + '\n'.join(lines) +
+            '\n    k = k + t\n  end subroutine kernel\nend module kmod\n')
